@@ -25,10 +25,13 @@ bool active();       // true while an execution is in progress
 void yield_now();
 
 struct Mutex { int owner = -1; int depth = 0; };
+// (the caller announces the scheduling point itself with point(m, K_LOCK/K_UNLOCK) first)
 void mutex_lock(Mutex* m, bool recursive = false);
 bool mutex_try_lock(Mutex* m, bool recursive = false);
 void mutex_unlock(Mutex* m);
+void mutex_destroyed(Mutex* m);  // reports destruction of a mutex that is held or has blocked waiters
 struct CondVar { std::vector<int> waiters; };
+// (caller announces point(cv, K_WAIT/K_NOTIFY) first)
 void cv_wait(CondVar* cv, Mutex* m);
 void cv_notify(CondVar* cv, bool all);
 bool cv_wait_until(CondVar* cv, Mutex* m, long long deadline_ns);  // true = timed out
